@@ -207,6 +207,18 @@ def plan(tier, prop):
                 items.append({"op": "holdout_plate", "params": {"fraction": f}, "layout": lay, "n_obs": 2, "pool": "mixed", "lookalike": True})
             items.append({"op": "permutation", "params": {"force": None}, "layout": lay, "n_obs": 0, "pool": "mixed", "lookalike": True})
             items.append({"op": "merge_min", "params": {"min_size": 2}, "layout": lay, "n_obs": 0, "pool": "mixed", "lookalike": True})
+    # histories: results recorded in place before the operation; a generator run again after one of its plates was revealed
+    for lay in lay_gen:
+        total = sum(sum(t) for t in lay)
+        if total <= 4 and sum(len(t) for t in lay) >= 2:
+            for kind, params in (("segregate", {"max_plate_size": 2}), ("pairwise", {"subset_size": 1, "anchor_size": 0}), ("permutation", {"force": None}),
+                                 ("merge_min", {"min_size": 2}), ("fixed", {"plate_size": 1}), ("n_per_sample", {"min_n_cell_line_plates": 1}),
+                                 ("merge_top_bottom", {"n_iterations": 1})):
+                items.append({"op": kind, "params": params, "layout": lay, "n_obs": 0, "pool": "mixed", "inplace_reveal": True, "bound": 1})
+            items.append({"op": "holdout_plate", "params": {"fraction": 0.5}, "layout": lay, "n_obs": 0, "pool": "mixed", "inplace_reveal": True, "bound": 1})
+            for kind, params in (("segregate", {"max_plate_size": 1}), ("segregate", {"max_plate_size": 2}), ("pairwise", {"subset_size": 1, "anchor_size": 0})):
+                for pool in ("mixed", "triple"):
+                    items.append({"op": kind, "params": params, "layout": lay, "n_obs": 0, "pool": pool, "regen": True, "bound": 1})
     # screens whose observation mask is an integer array
     for lay in lay_gen:
         if sum(sum(t) for t in lay) <= 3:
@@ -271,8 +283,26 @@ def execute(item, chooser):
         # the observation mask given as 0/1 integers (a pandas column, an HDF5 uint8 dataset) instead of booleans
         kw["observation_mask"] = np.array([1 if r[4] else 0 for r in rows], dtype=item["mask_dtype"])
     screen = make_screen(rows, control=CTL, **kw)
+    if item.get("inplace_reveal"):
+        # results of the first unobserved plate were recorded IN PLACE on this screen object (Screen.set_observed), after its
+        # observed / unobserved views had been looked at once
+        screen.subset_unobserved()
+        screen.subset_observed()
+        un = [p for p in screen.plates if not p.is_observed]
+        if un:
+            sel = np.asarray(un[0].selection_vector, dtype=bool).copy()
+            screen.set_observed(sel, np.asarray(screen.observations, dtype=float)[sel].copy())
     before = rows_of(screen)
     rng = ScriptedGenerator(chooser)
+    if item.get("regen"):
+        # generate -> reveal the first generated plate -> generate again for the rest: the second call is the one judged
+        try:
+            first = make_op(kind, item["params"]).generate_plates(screen, ScriptedGenerator(Chooser()))
+            un = sorted(int(p.plate_id) for p in first.plates if not p.is_observed)
+            screen = R.reveal_plates(first, [un[0]])
+        except Exception as exc:  # noqa: BLE001
+            return before, None, exc
+        before = rows_of(screen)
     try:
         op = make_op(kind, item["params"]) if kind in GENERATORS or kind in SMOOTHERS else None
         if op is not None and item.get("reuse"):
